@@ -4,6 +4,7 @@ import (
 	"fmt"
 	"os"
 	"path/filepath"
+	"sync"
 	"testing"
 
 	cg "verif/harness/internal/confgen"
@@ -19,7 +20,12 @@ import (
 // verif-tagged export): viper reads it from the OS file system by extension, the
 // discard_overflow default is applied, then the usual decode runs.
 type CLICase struct {
-	Format  string `json:"format"`  // yaml | json
+	Format string `json:"format"` // yaml | json
+	// Source: how the configuration reaches the reader, every way `pandora [<config>]` documents:
+	// "" / file = path with extension, file_noext = path without extension (read as YAML), stdin = the single
+	// argument "-" with the text on the standard input (YAML), search_dir = no argument, ./load.<format> in the
+	// working directory, search_dir_config = no argument, ./config/load.<format>.
+	Source  string `json:"source,omitempty"`
 	Conf    string `json:"conf"`    // the configuration (JSON text); pools carry discard_overflow or not
 	Discard []int  `json:"discard"` // informative, per pool: -1 absent, 0 false, 1 true, 2 / 3 a ${env:...} placeholder holding false / true
 }
@@ -35,6 +41,10 @@ func genCLI(t *rapid.T) CLICase {
 	o.NullP = 0 // viper drops / keeps null-valued keys in its own way; nulls are TestValid's business
 	root := cg.GenRoot(t, o)
 	c := CLICase{Format: rapid.SampledFrom([]string{"yaml", "yaml", "json"}).Draw(t, "format")}
+	c.Source = rapid.SampledFrom([]string{srcFile, srcFile, srcFile, srcNoExt, srcStdin, srcStdin, srcStdin, srcSearch, srcSearchConfig}).Draw(t, "source")
+	if c.Source == srcNoExt || c.Source == srcStdin {
+		c.Format = "yaml" // both are read as YAML whatever they hold
+	}
 	for _, p := range root["pools"].([]any) {
 		pool := p.(map[string]any)
 		d := rapid.SampledFrom([]int{-1, -1, 0, 1, 2, 3}).Draw(t, "discard")
@@ -52,6 +62,82 @@ func genCLI(t *rapid.T) CLICase {
 	}
 	c.Conf = cg.Encode(root)
 	return c
+}
+
+const (
+	srcFile         = "file"
+	srcNoExt        = "file_noext"
+	srcStdin        = "stdin"
+	srcSearch       = "search_dir"
+	srcSearchConfig = "search_dir_config"
+)
+
+// stdinMu guards the process-global things readThroughCLI swaps: os.Stdin and the working directory.
+var stdinMu sync.Mutex
+
+// readThroughCLI hands the configuration text to cli.readConfig in the way the case names.
+func readThroughCLI(c CLICase, data []byte) (conf *cli.CliConfig, err error) {
+	stdinMu.Lock()
+	defer stdinMu.Unlock()
+	switch c.Source {
+	case "", srcFile, srcNoExt:
+		path := filepath.Join(propDir, "load."+c.Format)
+		if c.Source == srcNoExt {
+			path = filepath.Join(propDir, "loadconf")
+		}
+		if err := os.WriteFile(path, data, 0o644); err != nil {
+			return nil, err
+		}
+		defer os.Remove(path)
+		return cli.ReadConfigForVerif([]string{path}), nil
+	case srcStdin:
+		// `pandora -`: the reader takes the text from os.Stdin; a regular file stands in for the pipe
+		path := filepath.Join(propDir, "stdin.txt")
+		if err := os.WriteFile(path, data, 0o644); err != nil {
+			return nil, err
+		}
+		defer os.Remove(path)
+		f, err := os.Open(path)
+		if err != nil {
+			return nil, err
+		}
+		saved := os.Stdin
+		os.Stdin = f
+		defer func() { os.Stdin = saved; f.Close() }()
+		return cli.ReadConfigForVerif([]string{"-"}), nil
+	case srcSearch, srcSearchConfig:
+		// no argument: ./load.* or ./config/load.* of the working directory
+		// (a working directory that has been removed meanwhile - the driver recreates its run directory when the
+		// check is started a second time - is no reason to fail: nothing else here depends on it)
+		wd, err := os.Getwd()
+		if err != nil {
+			wd = os.TempDir()
+		}
+		dir := filepath.Join(propDir, "cwd")
+		fileDir := dir
+		if c.Source == srcSearchConfig {
+			fileDir = filepath.Join(dir, "config")
+		}
+		if err := os.MkdirAll(fileDir, 0o755); err != nil {
+			return nil, err
+		}
+		defer os.RemoveAll(dir)
+		if err := os.WriteFile(filepath.Join(fileDir, "load."+c.Format), data, 0o644); err != nil {
+			return nil, err
+		}
+		if err := os.Chdir(dir); err != nil {
+			return nil, err
+		}
+		defer func() {
+			if e := os.Chdir(wd); e != nil {
+				if e2 := os.Chdir(os.TempDir()); e2 != nil && err == nil {
+					err = fmt.Errorf("cannot leave the temporary working directory: %v, %v", e, e2)
+				}
+			}
+		}()
+		return cli.ReadConfigForVerif(nil), nil
+	}
+	return nil, fmt.Errorf("unknown config source %q", c.Source)
 }
 
 func checkCLI(c CLICase, o *vf.Obs) error {
@@ -84,13 +170,10 @@ func checkCLI(c CLICase, o *vf.Obs) error {
 	if err != nil {
 		return err
 	}
-	path := filepath.Join(propDir, "load."+c.Format)
-	if err := os.WriteFile(path, data, 0o644); err != nil {
+	got, err := readThroughCLI(c, data)
+	if err != nil {
 		return err
 	}
-	defer os.Remove(path)
-
-	got := cli.ReadConfigForVerif([]string{path})
 	if got == nil {
 		return fmt.Errorf("cli reader returned nil")
 	}
@@ -115,8 +198,8 @@ func checkCLI(c CLICase, o *vf.Obs) error {
 		}
 		o.Class("discard_overflow:" + label)
 		if got.Engine.Pools[i].DiscardOverflow != want {
-			return fmt.Errorf("pool %d of %d (%s file): discard_overflow %s, decoded DiscardOverflow=%v, want %v",
-				i, len(pools), c.Format, label, got.Engine.Pools[i].DiscardOverflow, want)
+			return fmt.Errorf("pool %d of %d (%s text, source %q): discard_overflow %s, decoded DiscardOverflow=%v, want %v",
+				i, len(pools), c.Format, c.Source, label, got.Engine.Pools[i].DiscardOverflow, want)
 		}
 		// the reader decodes the same pool otherwise
 		wantID, _ := pool["id"].(string)
@@ -128,7 +211,12 @@ func checkCLI(c CLICase, o *vf.Obs) error {
 			return fmt.Errorf("pool %d: rps-per-instance %v decoded as %v", i, wantPI, got.Engine.Pools[i].RPSPerInstance)
 		}
 	}
-	o.Class("format:" + c.Format)
+	source := c.Source
+	if source == "" {
+		source = srcFile
+	}
+	o.Class("format:"+c.Format, "source:"+source)
+	o.ClassIf(anyAbsent, "some_pool_without_key:"+source)
 	o.ClassIf(len(pools) > 1, "pools_gt_1")
 	o.ClassIf(anyAbsent, "some_pool_without_key")
 	if anyAbsent {
